@@ -65,7 +65,31 @@ Tree ==
                       [fen |-> e.fen, pre |-> e.pre, d |-> e.d, nodes |-> e.n, order |-> r.order, engine |-> r.score, reference |-> ref])
                : k \in DOMAIN e.runs })
   /\ l' = l + 1
-Next == Tree
+\* Window level.  The same search called as an interior node with an arbitrary window (a, b), a < b: what it returns must
+\* be consistent with the exhaustive value v of the tree below it - the alpha-beta contract that Pvs.tla establishes for
+\* every window of the abstract search (InvValue) and that makes the root value independent of windows:
+\*     v <= a  =>  result <= a        v >= b  =>  result >= b        a < v < b  =>  result = v
+Contract(v, a, b, r) == IF v <= a THEN r <= a ELSE IF v >= b THEN r >= b ELSE r = v
+Win ==
+  /\ l <= Len(Rec) /\ Rec[l].ev = "win"
+  /\ LET e == Rec[l] IN
+     IF "skip" \in DOMAIN e THEN PrintT(<<"SKIP", l, e.skip>>)
+     ELSE IF "panic" \in DOMAIN e THEN Report(F(FALSE, "PANIC", "tree walk panicked", [fen |-> e.fen, msg |-> e.panic]))
+     ELSE IF HasMovelessNode(e.nodes) THEN PrintT(<<"SKIP", l, "moveless node">>)
+     ELSE LET ref == Clamp(RefValue(e.nodes)) IN
+          /\ PrintT(<<"WIN", l, e.n, ref, Len(e.runs)>>)
+          /\ Report(UNION {
+               LET r == e.runs[k] IN
+               IF "panic" \in DOMAIN r THEN F(FALSE, "PANIC", "search panicked", [fen |-> e.fen, via |-> e.via, d |-> e.d, msg |-> r.panic])
+               ELSE IF "aborted" \in DOMAIN r THEN F(FALSE, "HARNESS", "search aborted", [fen |-> e.fen])
+               ELSE F(Contract(ref, r.a, r.b, Clamp(r.score)), "C09",
+                      "windowed search result is inconsistent with the exhaustive value of the tree below (the value depends on the window)",
+                      [fen |-> e.fen, pre |-> e.pre, via |-> e.via, d |-> e.d, nodes |-> e.n, order |-> r.order,
+                       alpha |-> r.a, beta |-> r.b, engine |-> r.score, reference |-> ref,
+                       win |-> e.win, seed |-> e.seed, illegal |-> e.illegal])
+               : k \in DOMAIN e.runs })
+  /\ l' = l + 1
+Next == Tree \/ Win
 Spec == Init /\ [][Next]_l
 Accepted ==
   IF TLCGet("stats").diameter = Len(Rec) + 1
